@@ -69,6 +69,9 @@ int main(void)
      * (cbuf_create: `alloc = minsize + 1; #ifndef NDEBUG alloc += 2 * CBUF_MAGIC_LEN`); this probe is
      * compiled like the shipped build (NDEBUG).  The checks compare it with what the assertion-enabled
      * harness reports (`--meta`). */
+#ifndef CBUF_MAGIC_LEN
+#define CBUF_MAGIC_LEN (sizeof(unsigned long))
+#endif
     LEAN_NAT("RELAY_SIZE_META_ASSERT", (th[0].outbuf->alloc - th[0].outbuf->size) + 2 * CBUF_MAGIC_LEN);
     LEAN_NAT("RELAY_ERRBUF_SAME", th[0].errbuf->minsize == th[0].outbuf->minsize &&
                                   th[0].errbuf->maxsize == th[0].outbuf->maxsize);
